@@ -8,7 +8,7 @@ prop=$(python3 -c "import json;print(json.load(open('$d/meta.json'))['property']
 wt=$(mktemp -d /tmp/seedwt-XXXXXX); rmdir "$wt"
 git -C /repo worktree add --detach "$wt" HEAD -q || exit 2
 if ! git -C "$wt" apply "$PWD/$d/patch.diff"; then echo "patch does not apply"; git -C /repo worktree remove --force "$wt"; exit 2; fi
-VERIF_REPO=$wt bin/check "$prop" --tier "$tier" > "/tmp/seedcheck-$id.log" 2>&1; rc=$?
+VERIF_EVIDENCE_DIR=/tmp/seed-evidence-$id VERIF_REPO=$wt bin/check "$prop" --tier "$tier" > "/tmp/seedcheck-$id.log" 2>&1; rc=$?
 git -C /repo worktree remove --force "$wt"; git -C /repo worktree prune
 echo "seeded $id property=$prop tier=$tier rc=$rc  $(grep -c '^VIOLATION' /tmp/seedcheck-$id.log) violation lines  (log /tmp/seedcheck-$id.log)"
 grep -A1 '^VIOLATION' "/tmp/seedcheck-$id.log" | head -8
